@@ -12,6 +12,7 @@ func init() { Registry["C14"] = runC14 }
 
 func runC14(c *Ctx) {
 	R := c.R
+	defer c.include("C14.S1", "C08", []string{"C08.R2"}, "NULL fields become nil and only those: the -1 sentinel is tested by equality and an empty field is not nil", 3)
 	R.Technique = "bounds obligations (E-BND/E-LIN) and guard-dominance rules on the binary COPY row reader; sentinel equality rules; provenance of the per-column scanners"
 	R.Explanation = "Value decoding (what pgx codecs return) and independence from how the client splits the stream are runtime clauses that static analysis does not decide; the second one is in fact violated on this tree (open finding R3: a row that spans two CopyData messages is not reassembled). Decided structural clauses: (R1) the field count of a row is compared by equality with the number of declared columns before the row is allocated or decoded, and every index into the scanners and the row is proved in range; " +
 		"(R2) the end-of-data trailer (field count 0xFFFF) is recognised by equality before the count is used, yields no row and surfaces the stream's end; the NULL field marker (length 0xFFFFFFFF) is recognised by equality and leaves the value nil, every other length is read as a length and failures are returned as errors; (R3) [open finding] a short read inside a row must be able to fetch the next CopyData message; " +
@@ -59,6 +60,51 @@ func runC14(c *Ctx) {
 	R.Count("bounds_discharged", nOK)
 	R.Floor("C14.R1", "bounds obligations in the binary COPY reader", nOb, 5)
 
+	// Read may be two sequential steps: fetch the next chunk, then decode a row in a method whose results Read returns
+	// unchanged (nextChunk(); return readRow()). The row rules then apply to that method; the window rule spans both.
+	var outer *ssa.Function
+	var outerCall *ssa.Call
+	{
+		has := false
+		for _, ci := range core.Calls(read) {
+			if call, ok := ci.(*ssa.Call); ok && isReaderMethod(call, "GetUint16") {
+				has = true
+			}
+		}
+		if !has {
+			for _, ci := range core.Calls(read) {
+				call, isCall := ci.(*ssa.Call)
+				h := core.StaticCallee(ci)
+				if !isCall || h == nil || h == read || !c.P.InPkg(h, "wire") || h.Blocks == nil {
+					continue
+				}
+				hasH := false
+				for _, hi := range core.Calls(h) {
+					if hc, ok := hi.(*ssa.Call); ok && isReaderMethod(hc, "GetUint16") {
+						hasH = true
+					}
+				}
+				tail := hasH
+				for _, r := range returns(read) {
+					if !core.InstrDominates(call, r) {
+						continue
+					}
+					for j, res := range r.Results {
+						if ex, isEx := forwardLoad(res).(*ssa.Extract); !isEx || ex.Tuple != ssa.Value(call) || ex.Index != j {
+							tail = false
+						}
+					}
+				}
+				if tail {
+					outer, outerCall = read, call
+				}
+			}
+			if outer != nil {
+				read = core.StaticCallee(outerCall)
+				R.Analysed(fname(read))
+			}
+		}
+	}
 	var fields ssa.Value
 	for _, ci := range core.Calls(read) {
 		if call, ok := ci.(*ssa.Call); ok && isReaderMethod(call, "GetUint16") {
@@ -134,40 +180,123 @@ func runC14(c *Ctx) {
 				fieldsCall = call
 			}
 		}
-		var nonEmpty []edge
-		for _, b := range read.Blocks {
-			for _, in := range b.Instrs {
-				cmp, ok := in.(*ssa.BinOp)
-				if !ok {
-					continue
-				}
-				x, isLen := core.IsLenOf(cmp.X)
-				if !isLen {
-					continue
-				}
-				if fr, ok := core.FieldOfValue(x); !ok || !fr.Is(pkBuffer, "Reader", "Msg") {
-					continue
-				}
-				k, isK := core.ConstInt(cmp.Y)
-				if !isK || k != 0 {
-					continue
-				}
-				for _, u := range core.Referrers(cmp) {
-					iff, isIf := u.(*ssa.If)
-					if !isIf {
+		nonEmptyEdges := func(fn *ssa.Function) []edge {
+			var out []edge
+			for _, b := range fn.Blocks {
+				for _, in := range b.Instrs {
+					cmp, ok := in.(*ssa.BinOp)
+					if !ok {
 						continue
 					}
-					switch cmp.Op {
-					case token.EQL:
-						nonEmpty = append(nonEmpty, edge{iff.Block(), 1})
-					case token.NEQ, token.GTR:
-						nonEmpty = append(nonEmpty, edge{iff.Block(), 0})
+					x, isLen := core.IsLenOf(cmp.X)
+					if !isLen {
+						continue
+					}
+					if fr, ok := core.FieldOfValue(x); !ok || !fr.Is(pkBuffer, "Reader", "Msg") {
+						continue
+					}
+					k, isK := core.ConstInt(cmp.Y)
+					if !isK || k != 0 {
+						continue
+					}
+					for _, u := range core.Referrers(cmp) {
+						iff, isIf := u.(*ssa.If)
+						if !isIf {
+							continue
+						}
+						switch cmp.Op {
+						case token.EQL:
+							out = append(out, edge{iff.Block(), 1})
+						case token.NEQ, token.GTR:
+							out = append(out, edge{iff.Block(), 0})
+						}
 					}
 				}
 			}
+			return out
+		}
+		// no window change between the edge and the instruction `until` (nil: the end of every block it dominates)
+		cleanAfter := func(fn *ssa.Function, e edge, until ssa.Instruction) bool {
+			for _, b := range fn.Blocks {
+				if !e.dominates(b) {
+					continue
+				}
+				if until != nil && !b.Dominates(until.Block()) {
+					continue
+				}
+				for _, in := range b.Instrs {
+					if until != nil && in == until {
+						break
+					}
+					if ci, isCall := in.(ssa.CallInstruction); isCall && c.modSets().MayModify(ci, "Reader", "Msg") {
+						return false
+					}
+				}
+			}
+			return true
+		}
+		winFn := read // the function in which the window is established before the row is decoded
+		if outer != nil {
+			winFn = outer
+		}
+		nonEmpty := nonEmptyEdges(winFn)
+		// a helper of the reader that returns without error only with a non-empty window (nextChunk): its success edge
+		// is such an edge
+		for _, ci := range core.Calls(winFn) {
+			call, isCall := ci.(*ssa.Call)
+			h := core.StaticCallee(ci)
+			if !isCall || h == nil || h == winFn || h == read || !c.P.InPkg(h, "wire") || h.Blocks == nil || errResultOf(call) == nil {
+				continue
+			}
+			hEdges := nonEmptyEdges(h)
+			if len(hEdges) == 0 {
+				continue
+			}
+			est := len(returns(h)) > 0
+			for _, r := range returns(h) {
+				if cls := c.Err().Classify(errOperand(r), r.Block()); !cls.MayBeNil() {
+					continue
+				}
+				okR := false
+				for _, e := range hEdges {
+					if e.dominates(r.Block()) && cleanAfter(h, e, r) {
+						okR = true
+					}
+				}
+				if !okR {
+					est = false
+				}
+			}
+			if est {
+				nonEmpty = append(nonEmpty, nilEdges(errResultOf(call), true)...)
+				R.Analysed(fname(h))
+			}
 		}
 		okNE := false
-		if fieldsCall != nil {
+		if fieldsCall != nil && outer != nil {
+			// split form: the edge dominates the call of the row step with no window change up to it, and the row step
+			// changes nothing before it reads the count
+			inner := true
+			for _, b := range read.Blocks {
+				if !b.Dominates(fieldsCall.Block()) {
+					continue
+				}
+				for _, in := range b.Instrs {
+					if in == ssa.Instruction(fieldsCall) {
+						break
+					}
+					if ci, isCall := in.(ssa.CallInstruction); isCall && c.modSets().MayModify(ci, "Reader", "Msg") {
+						inner = false
+					}
+				}
+			}
+			for _, e := range nonEmpty {
+				if inner && e.dominates(outerCall.Block()) && cleanAfter(outer, e, outerCall) {
+					okNE = true
+				}
+			}
+		}
+		if fieldsCall != nil && outer == nil {
 			for _, e := range nonEmpty {
 				if !e.dominates(fieldsCall.Block()) {
 					continue
@@ -360,9 +489,16 @@ func runC14(c *Ctx) {
 		}
 	}
 	consulted := usesSig(read)
-	for _, ci := range core.Calls(read) {
-		if callee := core.StaticCallee(ci); callee != nil && c.P.InPkg(callee, "wire") && usesSig(callee) {
-			consulted = true
+	sigHosts := []*ssa.Function{read}
+	if outer != nil { // the chunk step of a split Read runs between rows
+		sigHosts = append(sigHosts, outer)
+		consulted = consulted || usesSig(outer)
+	}
+	for _, host := range sigHosts {
+		for _, ci := range core.Calls(host) {
+			if callee := core.StaticCallee(ci); callee != nil && c.P.InPkg(callee, "wire") && usesSig(callee) {
+				consulted = true
+			}
 		}
 	}
 	R.Check(sig != nil && consulted && !inRow, "C14.R2", "Read:header-only-between-rows", c.atFn(read), "the COPY stream header (signature) is recognised and skipped only at a row boundary, never inside a row where the same bytes would be user data", "the signature is consulted outside the field loop only", sprintf("signature consulted by Read or a helper: %v; consulted inside the field loop (or by a helper called from it): %v - inside a row, value bytes that happen to equal the signature would be dropped and the rest of the stream decoded from a shifted offset", consulted, inRow))
